@@ -207,7 +207,7 @@ func init() {
 		panic(engineError{"IntStr"})
 	})
 	reg(zz+"FloatStr", func(fr *frame, args []Value) Value {
-		return Str{tag: &StrTag{isFloat: true, fpOf: args[0]}}
+		return Str{tag: &StrTag{isFloat: true, fpOf: args[0], fmtC: 'f', prec: -1}}
 	})
 	reg(zz+"MapOrder", func(fr *frame, args []Value) Value {
 		fr.w.mapOrderFork = liftBool(args[0]) == trueT
@@ -244,6 +244,14 @@ func init() {
 		}
 		return Slice{v: cells, nonNil: true}
 	})
+	clone := func(fr *frame, a []Value) Value {
+		s := fr.w.cells(a[0].(Str))
+		nb := make([]Value, len(s.b))
+		copy(nb, s.b)
+		return Str{b: nb}
+	}
+	reg("internal/stringslite.Clone", clone)
+	reg("strings.Clone", clone)
 	reg("internal/abi.NoEscape", func(fr *frame, a []Value) Value { return a[0] })
 	reg("internal/abi.Escape", func(fr *frame, a []Value) Value { return a[0] })
 
